@@ -7,6 +7,9 @@
   constraint for each of the three declared forms (constant, repeated symbol, compound).
 -/
 import BartiqProofs.Refinement
+import Mathlib.Data.Rat.Defs
+import Mathlib.Data.Rat.Cast.Defs
+import Mathlib.Tactic.Ring
 namespace Bartiq
 open Expr
 variable {V : Type}
@@ -91,5 +94,64 @@ theorem C06_fresh_symbol_bound (r : Routine) (st st' : IPVState) (port : Port) (
   rw [if_pos hne] at h
   simp only [pure, Except.pure, bind, Except.bind, Except.ok.injEq] at h
   subst h; exact ⟨rfl, rfl⟩
+
+/-! ### completeness on numbers: once both sides of a retained constraint are closed (all top-level inputs assigned — C04), the
+    executable comparator DECIDES it, and a difference of integer sizes is always a violation -/
+
+theorem closedValue_sub (a b : Expr) (va vb : Rat) (ha : Poly.closedValue? a = some va) (hb : Poly.closedValue? b = some vb) :
+    Poly.closedValue? (.bin .sub a b) = some (va - vb) := by
+  unfold Poly.closedValue? at *
+  split at ha
+  · rename_i hfa
+    split at hb
+    · rename_i hfb
+      simp only [List.isEmpty_iff] at hfa hfb
+      simp only [Expr.fv, hfa, hfb, List.append_nil, List.isEmpty_nil, if_true, Expr.eval, ha, hb, Option.bind_some]
+      rfl
+    · cases hb
+  · cases ha
+
+/-- the comparator on two closed sides with exact values: equal values → equal; different INTEGER values → unequal -/
+theorem C06_numeric_sizes_decided (a b : Expr) (va vb : Rat) (ha : Poly.closedValue? a = some va) (hb : Poly.closedValue? b = some vb)
+    (hia : va.den = 1) (hib : vb.den = 1) : Cmp.poly a b = if va = vb then .equal else .unequal := by
+  unfold Cmp.poly Poly.ofExpr
+  rw [closedValue_sub a b va vb ha hb]
+  simp only
+  have hconst : Poly.isConst? (Poly.const (va - vb)) = some (va - vb) := by
+    unfold Poly.const
+    by_cases h0 : va - vb = 0
+    · simp [h0, Poly.isConst?]
+    · simp [h0, Poly.isConst?]
+  rw [hconst]
+  simp only
+  by_cases h : va = vb
+  · subst h; simp
+  · have hne : va - vb ≠ 0 := sub_ne_zero.mpr h
+    have hden : (va - vb).den = 1 := by
+      have e1 : ((va.num : Int) : Rat) = va := Rat.coe_int_num_of_den_eq_one hia
+      have e2 : ((vb.num : Int) : Rat) = vb := Rat.coe_int_num_of_den_eq_one hib
+      rw [← e1, ← e2, ← Int.cast_sub]
+      exact Rat.den_intCast _
+    simp [h, hne, hden]
+
+/-- **a real difference of integer sizes is always rejected** once the sides are numbers: the evaluation of such a constraint
+    with the executable comparator fails exactly when the two values differ -/
+theorem C06_numeric_mismatch_always_rejected (c : Constraint) (σ : Dict Expr) (va vb : Rat)
+    (ha : Poly.closedValue? (Expr.subst σ c.lhs) = some va) (hb : Poly.closedValue? (Expr.subst σ c.rhs) = some vb)
+    (hia : va.den = 1) (hib : vb.den = 1) :
+    (va ≠ vb → ∃ e, evaluateConstraint Cmp.poly c σ = .error e) ∧
+    (va = vb → ∃ nc, evaluateConstraint Cmp.poly c σ = .ok nc ∧ nc.status = .satisfied) := by
+  have hd := C06_numeric_sizes_decided _ _ va vb ha hb hia hib
+  constructor
+  · intro hne
+    simp only [hne, if_false] at hd
+    exact ⟨(c, ⟨Expr.subst σ c.lhs, Expr.subst σ c.rhs, .violated⟩), by simp [evaluateConstraint, hd]⟩
+  · intro heq
+    simp only [heq, if_true] at hd
+    exact ⟨⟨Expr.subst σ c.lhs, Expr.subst σ c.rhs, .satisfied⟩, by simp [evaluateConstraint, hd], rfl⟩
+
+-- non-vacuity: 2·3 against 7 is rejected, against 6 accepted
+example : Cmp.poly (.bin .mul (.num 2) (.num 3)) (.num 7) = .unequal ∧ Cmp.poly (.bin .mul (.num 2) (.num 3)) (.num 6) = .equal := by
+  decide +kernel
 
 end Bartiq
